@@ -48,9 +48,9 @@ theorem C16_short (N N' : Net L K) (keep : List (ElemKey K)) (R : Report L K)
   have hN' := mk?_ok hr
   have heq := shortPairs_equipotential N keep R h
   subst hN'
-  refine ⟨?_, rfl, fold_survivors _ _ R heq⟩
+  refine ⟨?_, rfl, contractAll_survivors _ _ _ R heq⟩
   rw [← circuitEqsAll_iff]
-  exact fold_sound _ _ _ R ((circuitEqsAll_iff N R).mpr h) heq
+  exact contractAll_sound _ _ _ R ((circuitEqsAll_iff N R).mpr h) heq
 
 /-- the contracted network never contains a self-loop and never a branch the original did not have -/
 theorem C16_short_no_new_branch (N N' : Net L K) (keep : List (ElemKey K))
@@ -58,9 +58,44 @@ theorem C16_short_no_new_branch (N N' : Net L K) (keep : List (ElemKey K))
   intro b' hb'
   have hN' := mk?_ok hr
   subst hN'
-  obtain ⟨b, hb, hid, _⟩ := fold_survivors (shortPairs N keep) N.branches (Report.zeroRep (L := L) (K := K))
-    (fun _ _ => rfl) b' hb'
+  obtain ⟨b, hb, hid, _⟩ := contractAll_survivors (shortPairs N keep) N.branches N.zero
+    (Report.zeroRep (L := L) (K := K)) (fun _ _ => rfl) b' hb'
   exact List.mem_map.mpr ⟨b, hb, hid.symm⟩
+
+/-- **C16 (short contraction is complete).**  Whatever the network (any number of shorts, chained,
+starred, parallel, on the reference node, ids distinct or not) and whatever the exemption list: no
+branch of the result is a short circuit that is not exempted — every non-exempt short of the input
+was contracted, i.e. became a self-loop and was dropped.  In particular no non-exempt short is
+left between two different nodes (`C16_short_complete_nodes`). -/
+theorem C16_short_complete (N N' : Net L K) (keep : List (ElemKey K))
+    (hr : removeShort N keep = .ok N') :
+    ∀ b' ∈ N'.branches, b'.e.isShort = true → keep.contains b'.key = true := by
+  have hN' := mk?_ok hr
+  subst hN'
+  intro b' hb' hs
+  have := contractAll_complete (L := L) (fun k : ElemKey K => k.e.isShort = true ∧ keep.contains k = false)
+    (shortPairs N keep) N.branches N.zero ?_ b' hb'
+  · cases hk : keep.contains b'.key with
+    | true => rfl
+    | false => exact absurd ⟨hs, hk⟩ this
+  intro b hb ⟨hsb, hkb⟩
+  have hkb' : keep.contains b.key = false := hkb
+  have hsb' : b.e.isShort = true := hsb
+  have hf : b ∈ N.branches.filter fun b => b.e.isShort && !(keep.contains b.key) :=
+    List.mem_filter.mpr ⟨hb, by rw [hsb', hkb']; rfl⟩
+  unfold shortPairs
+  by_cases hz : b.n1 = N.zero
+  · refine Or.inr (List.mem_map.mpr ⟨b, hf, ?_⟩); simp [hz]
+  · refine Or.inl (List.mem_map.mpr ⟨b, hf, ?_⟩); simp [hz]
+
+/-- the form in which the harness checks it (`short_left_behind`): for a network with distinct
+ids, no branch of the result is a non-exempt short circuit between two different nodes -/
+theorem C16_short_complete_nodes (N N' : Net L K) (keep : List (ElemKey K))
+    (hr : removeShort N keep = .ok N') (_hid : N.ids.Nodup) :
+    ∀ b' ∈ N'.branches, ¬ (b'.e.isShort = true ∧ keep.contains b'.key = false ∧ b'.n1 ≠ b'.n2) := by
+  rintro b' hb' ⟨hs, hk, _⟩
+  rw [C16_short_complete N N' keep hr b' hb' hs] at hk
+  cases hk
 
 /-- **C16 (open removal).**  Removing open-circuit branches keeps every other branch as it
 is (same order) and every solution of the original solves the result. -/
